@@ -155,6 +155,9 @@ func ruleUpdateContextApplies(r *Run, p *Prog, rule string) {
 		})
 		if !okSkip && bad == "" {
 			bad, badPos = pa.String(p), p.Pos(pa.Exit.Pos())
+			if badPos == "-" || badPos == "" {
+				badPos = p.Pos(f.Pos())
+			}
 		}
 	}
 	pos := p.Pos(f.Pos())
@@ -295,6 +298,12 @@ func rulePoolGetConfined(r *Run, p *Prog, rule string, ctor map[string]string) {
 			}
 			n++
 			okc := f.Parent() == nil && f.Signature.Recv() == nil && f.Name() == want
+			if !okc {
+				// a private step of the constructor (`getEvent()` called by newEvent only) is the constructor
+				if cf := p.Func("", want); cf != nil && p.exclusiveHelpers(cf)[f] {
+					okc = true
+				}
+			}
 			r.Ob(rule, FnName(f)+"/get-confined:"+nm.Obj().Name(), p.Pos(c.Pos()), okc, true, tern(okc, "the pool's Get is in the constructor that resets every field", FnName(f)+" takes a pooled "+nm.Obj().Name()+" straight from the pool instead of through "+want+"(): the object still carries its previous user's fields (Go context, stack flag, level, hooks, buffer)"))
 		})
 	}
